@@ -410,7 +410,7 @@ def run_cmd(case):
             rec["status"] = "exc:" + type(ex).__name__
         finally:
             log = fstrace.stop()
-            logging.disable(logging.CRITICAL)
+            logging.disable(logging.INFO)
             sys.stdout, sys.stderr = so, se
             os.chdir(cwd)
         after = snapshot(work)
